@@ -625,7 +625,14 @@ func (interp *Interpreter) EvalWithContext(ctx context.Context, src string) (ref
 // invocation of EvalWithContext.
 func (interp *Interpreter) stop() {
 	atomic.AddUint64(&interp.id, 1)
+	interp.mutex.Lock()
 	close(interp.done)
+	// The frames of the cancelled evaluation keep the closed channel. It must
+	// not be inherited by the next evaluations, which may be started by entry
+	// points not setting a new channel: all their select statements and
+	// channel operations would be interrupted.
+	interp.done = make(chan struct{})
+	interp.mutex.Unlock()
 }
 
 func (interp *Interpreter) runid() uint64 { return atomic.LoadUint64(&interp.id) }
